@@ -273,11 +273,7 @@ fn run_config(
     let options = InstanceOptions::new(face.index, ppem, &[], mode.hinting());
     // Instance creation runs fpgm/prep (skrifa) and FT_New_Memory_Face +
     // FT_Set_Pixel_Sizes; a panic in there is not this property's subject.
-    let t_inst = std::time::Instant::now();
     let inst = vf_core::guard(|| ft_font.instantiate(&options));
-    if synth.is_some() {
-        ctx.count(&format!("synthetic_instantiate_us:{}", mode.engine()), t_inst.elapsed().as_micros() as u64);
-    }
     let (ft, sk) = match inst {
         Ok(Some(pair)) => pair,
         Ok(None) => {
